@@ -21,6 +21,7 @@ Hypothesis HSave : forall n, P (KSave n).
 Hypothesis HRestore : forall n, P (KRestore n).
 Hypothesis HSaveP : forall n, P (KSaveP n).
 Hypothesis HUseP : forall n, P (KUseP n).
+Hypothesis HMemo : forall n, P (KMemo n).
 Hypothesis HBrk : P KBrk.
 Hypothesis HBlock : forall b, Forall P b -> P (KBlock b).
 Hypothesis HSwitch : forall cs d, Forall (Forall P) cs -> Forall P d -> P (KSwitch cs d).
@@ -28,7 +29,7 @@ Hypothesis HSwitch : forall cs d, Forall (Forall P) cs -> Forall P d -> P (KSwit
 Fixpoint code_ind2 (x : code) : P x :=
   match x with
   | KSt => HSt | KLbl n => HLbl n | KJmp n => HJmp n | KCJmp n => HCJmp n
-  | KSave n => HSave n | KRestore n => HRestore n | KSaveP n => HSaveP n | KUseP n => HUseP n | KBrk => HBrk
+  | KSave n => HSave n | KRestore n => HRestore n | KSaveP n => HSaveP n | KUseP n => HUseP n | KMemo n => HMemo n | KBrk => HBrk
   | KBlock b => HBlock b ((fix go (l : list code) : Forall P l := match l with [] => Forall_nil _ | y :: l' => Forall_cons _ (code_ind2 y) (go l') end) b)
   | KSwitch cs d =>
       HSwitch cs d
@@ -781,14 +782,15 @@ Proof.
   destruct (proj1 (declarations_at_head ast used) _ _ _ _ _ Em) as (E1 & E2).
   set (pre1 := if ast then [KSt] else []) in *.
   set (pre2 := if (ast || used ko)%bool then [KSave ko] else []) in *.
-  set (post := pre1 ++ KSt :: (if used ko then KLbl ko :: pre1 ++ [KRestore ko; KSt] else [])) in *.
+  set (pm := if ast then [KMemo ko] else []) in *.
+  set (post := pm ++ KSt :: (if used ko then KLbl ko :: pm ++ [KRestore ko; KSt] else [])) in *.
   assert (Jpre1 : jumps pre1 = []) by (unfold pre1; destruct ast; reflexivity).
   assert (Jpre2 : jumps pre2 = []) by (unfold pre2; destruct ast, (used ko); reflexivity).
-  assert (Jpost : jumps post = []) by (unfold post, pre1; destruct ast, (used ko); reflexivity).
+  assert (Jpost : jumps post = []) by (unfold post, pm; destruct ast, (used ko); reflexivity).
   assert (Lpre1 : lbls pre1 = []) by (unfold pre1; destruct ast; reflexivity).
   assert (Lpre2 : lbls pre2 = []) by (unfold pre2; destruct ast, (used ko); reflexivity).
-  assert (Lpost : lbls post = if used ko then [ko] else []) by (unfold post, pre1; destruct ast, (used ko); reflexivity).
-  assert (Dpost : dlbls post = if used ko then [ko] else []) by (unfold post, pre1; destruct ast, (used ko); reflexivity).
+  assert (Lpost : lbls post = if used ko then [ko] else []) by (unfold post, pm; destruct ast, (used ko); reflexivity).
+  assert (Dpost : dlbls post = if used ko then [ko] else []) by (unfold post, pm; destruct ast, (used ko); reflexivity).
   assert (JF : jumps (pre1 ++ pre2 ++ c ++ post) = jumps c) by (rewrite !jumps_app, Jpre1, Jpre2, Jpost, app_nil_r; reflexivity).
   assert (LF : lbls (pre1 ++ pre2 ++ c ++ post) = lbls c ++ (if used ko then [ko] else [])) by (rewrite !lbls_app, Lpre1, Lpre2, Lpost; reflexivity).
   rewrite JF in Hu.
@@ -801,17 +803,17 @@ Proof.
     intros x Hx Hk. destruct (A3 _ Hx). destruct (used ko); [|destruct Hk]. destruct Hk as [<-|[]]. lia.
   - apply scoped_app; [unfold pre1; destruct ast; reflexivity|].
     apply scoped_app; [unfold pre2; destruct ast, (used ko); reflexivity|].
-    apply scoped_app; [|unfold post, pre1; destruct ast, (used ko); reflexivity].
+    apply scoped_app; [|unfold post, pm; destruct ast, (used ko); reflexivity].
     eapply (scoped_into ko); [apply C; exact Hu|]. intros Hj. rewrite Dpost, (Hu _ Hj). left. reflexivity.
   - assert (Np : nodecl (c ++ post) = true).
-    { unfold nodecl. rewrite forallb_app. fold (nodecl c). rewrite E1. unfold post, pre1. destruct ast, (used ko); reflexivity. }
+    { unfold nodecl. rewrite forallb_app. fold (nodecl c). rewrite E1. unfold post, pm. destruct ast, (used ko); reflexivity. }
     unfold pre1, pre2. destruct ast; cbn [orb app].
     + unfold head_decls. cbn [drop_while is_st is_decl]. apply (nodecl_suffix is_decl). exact Np.
     + destruct (used ko) eqn:Eu; cbn [app].
       * apply head_decls_cons; [reflexivity|exact Np].
       * apply head_decls_nodecl. exact Np.
-  - rewrite !forallb_app, E2. unfold pre1, pre2, post, pre1. destruct ast, (used ko); reflexivity.
-  - rewrite !forallb_app, D2. unfold pre1, pre2, post, pre1. destruct ast, (used ko); reflexivity.
+  - rewrite !forallb_app, E2. unfold pre1, pre2, post, pm. destruct ast, (used ko); reflexivity.
+  - rewrite !forallb_app, D2. unfold pre1, pre2, post, pm. destruct ast, (used ko); reflexivity.
 Qed.
 
 (** * the whole file: the labels printed are exactly the labels jumped to *)
@@ -839,10 +841,10 @@ Proof.
   cbn [fst snd] in *. split; [exact E1|].
   rewrite !jumps_app, E2.
   assert (Z : forall u, jumps (if ast then [KSt] else []) = [] /\ jumps (if (ast || u ko)%bool then [KSave ko] else []) = [] /\
-                        jumps [KSt] = [] /\ jumps (if u ko then [KLbl ko] ++ (if ast then [KSt] else []) ++ [KRestore ko; KSt] else []) = []).
+                        jumps [KSt] = [] /\ jumps (if u ko then [KLbl ko] ++ (if ast then [KMemo ko] else []) ++ [KRestore ko; KSt] else []) = [] /\ jumps (if ast then [KMemo ko] else []) = []).
   { intros u. destruct ast, (u ko); repeat split; reflexivity. }
-  destruct (Z u1) as (Z1 & Z2 & Z3 & Z4). destruct (Z u2) as (_ & Y2 & _ & Y4).
-  rewrite Z1, Z2, Z3, Z4, Y2, Y4. reflexivity.
+  destruct (Z u1) as (Z1 & Z2 & Z3 & Z4 & Z5). destruct (Z u2) as (_ & Y2 & _ & Y4 & _).
+  rewrite Z1, Z2, Z3, Z4, Z5, Y2, Y4. reflexivity.
 Qed.
 
 Lemma pass_same u1 u2 b1 b2 rs : forall r l,
